@@ -15,7 +15,9 @@ import (
 
 func DecodeBitmap(img *bitmap.Image) (*QRCode, error) {
 	binimg := internalbitmap.Import(img)
-	bounds := img.Bounds()
+	// the function pattern tables have their origin at (0, 0).
+	binimg.Rect = binimg.Rect.Sub(binimg.Rect.Min)
+	bounds := binimg.Rect
 	w := bounds.Dx() - 1
 	h := bounds.Dy() - 1
 
@@ -24,6 +26,9 @@ func DecodeBitmap(img *bitmap.Image) (*QRCode, error) {
 		return nil, err
 	}
 	used := usedList[version]
+	if !bounds.Eq(used.Rect) {
+		return nil, fmt.Errorf("rmqr: image size %dx%d does not match version %s", bounds.Dx(), bounds.Dy(), version)
+	}
 	binimg.Mask(binimg, used, precomputedMask)
 
 	var buf bitstream.Buffer
